@@ -7,6 +7,7 @@ import Pyvsc.Model.Covergroup
 import Pyvsc.Drv.Solve
 import Pyvsc.Drv.World
 import Pyvsc.Drv.Ctor
+import Pyvsc.Drv.Lists
 /-!
 # pvdrv — line-protocol driver for the executable model
 
@@ -345,6 +346,7 @@ def handle (j : Json) : Except String Json := do
   else if op.startsWith "z." then Pyvsc.DrvSolve.handle op j
   else if op.startsWith "o." then Pyvsc.DrvWorld.handle op j
   else if op.startsWith "t." then Pyvsc.DrvCtor.handle op j
+  else if op.startsWith "l." then Pyvsc.DrvLists.handle op j
   else throw s!"unknown op {op}"
 
 partial def loop (hin : IO.FS.Stream) (hout : IO.FS.Stream) : IO Unit := do
